@@ -1,47 +1,132 @@
-(** Evaluator of the C04 correspondence stream: a chain of real authenticator
-    instances, a request described by its credential shapes, the outcome the
-    driver saw for every consulted authenticator and the composite's answer. *)
+(** Evaluator of the C04 correspondence streams.  A case is a rule's chain of
+    real authenticator instances and a sequence of requests (credential shapes)
+    sent through it with one cache; per request the driver saw, for every
+    authenticator whose Execute ran: its position in the configured chain, what
+    IsFallbackOnErrorAllowed() answered, whether its cache lookup hit, and its
+    outcome; then the composite's answer and — when the request went through a
+    complete service — status class and forwarded subject of the response. *)
 From HV Require Export Base.Prelude C04.Model C04.Proofs.
 
-Record case := {
-  c_chain : list authn;
-  c_req : request;
-  c_seen : list outcome;     (* outcome of each authenticator whose Execute ran, in order *)
-  c_res : result }.          (* what compositeSubjectCreator.Execute returned *)
+Record seen1 := { s_pos : nat; s_fb : bool; s_hit : lookup; s_out : outcome }.
 
-(** a "no credentials" answer exactly when no credentials of the kind are in the request *)
-Definition sound_class (a : authn) (q : request) (o : outcome) : bool :=
-  Bool.eqb (outcome_eqb o (Failed ENoCreds)) (negb (presented (a_type a) q)).
+(** answer of the decision / Envoy ext_authz service *)
+Inductive e2e :=
+| E2None                          (* the composite was called directly *)
+| E2Ok (sub : option string)      (* 2xx / OK; value of the header the finalizer fills with Subject.ID *)
+| E2Denied.                       (* any other answer *)
 
-(** the property on the implementation's observation: consulted authenticators
-    are a prefix; each but the last lets pass (no credentials or opt-in); the
-    run ends with an acceptance, a blocking failure, or the end of the chain;
-    the answer is the last consulted authenticator's; classification is sound *)
-Fixpoint prop_chain (q : request) (ca : list authn) (seen : list outcome) (res last : result) : bool :=
+Record step := { st_req : request; st_seen : list seen1; st_res : result; st_e2e : e2e }.
+Record case := { c_chain : list authn; c_steps : list step }.
+
+(* ------------------------------------------------------------------ what the property talks about *)
+
+(** outcome classes: accepted (with the subject), "no credentials", any other failure *)
+Inductive ocls := CAcc (s : string) | CNoCreds | CFail.
+
+Definition cls (o : outcome) : ocls :=
+  match o with Accepted s => CAcc s | Failed ENoCreds => CNoCreds | Failed _ => CFail end.
+
+Definition cls_eqb (a b : ocls) : bool :=
+  match a, b with
+  | CAcc x, CAcc y => String.eqb x y
+  | CNoCreds, CNoCreds | CFail, CFail => true
+  | _, _ => false
+  end.
+
+(** answer classes: a subject, an error, nothing *)
+Definition res_cls_eqb (a b : result) : bool :=
+  match a, b with
+  | RSubject x, RSubject y => String.eqb x y
+  | RError _, RError _ | RNil, RNil => true
+  | _, _ => false
+  end.
+
+(** the service answered what the composite answered *)
+Definition e2e_ok (r : result) (e : e2e) : bool :=
+  match e, r with
+  | E2None, _ => true
+  | E2Ok (Some s'), RSubject s => String.eqb s s'
+  | E2Denied, RError _ => true
+  | _, _ => false
+  end.
+
+(* ------------------------------------------------------------------ the property on the observation *)
+
+(** "explicitly allows fallback on error", decided *)
+Definition opts_inb (a : authn) : bool :=
+  match a_over_fb a with Some b => b | None => a_proto_fb a end.
+
+Lemma opts_inb_spec a : opts_inb a = true <-> opts_in a.
+Proof.
+  unfold opts_inb. split.
+  - destruct (a_over_fb a) as [[|]|] eqn:E; intro H; try discriminate.
+    + apply optin_rule; assumption.
+    + apply optin_proto; assumption.
+  - intros [H | H1 H2]; rewrite ?H, ?H1; auto.
+Qed.
+
+(** the request carries credentials of the authenticator's kind, decided *)
+Definition presentsb (q : request) (a : authn) : bool :=
+  match kind_of (a_type a) with Some k => presented k q | None => true end.
+
+Lemma presentsb_spec q a : presentsb q a = true <-> presents q a.
+Proof. unfold presentsb, presents. destruct (kind_of (a_type a)); split; auto. Qed.
+
+(** one consulted authenticator respects the statement:
+    it found credentials of its kind => its failure is not of the "no credentials" kind;
+    it says it allows fallback => the step is opted in explicitly *)
+Definition sound1 (q : request) (a : authn) (s : seen1) : bool :=
+  match s_out s with Failed ENoCreds => negb (presentsb q a) | _ => true end &&
+  implb (s_fb s) (opts_inb a).
+
+(** the property on the implementation's observation: the consulted
+    authenticators are the configured ones in their order; each but the last
+    found no credentials or allows fallback; the run ends with the first
+    acceptance (its subject is the answer), with a failure that neither lacks
+    credentials nor allows fallback (the answer is an error), or with the end of
+    the chain (the answer is an error; nothing for the empty chain) *)
+Fixpoint prop_chain (q : request) (pos : nat) (ca : list authn) (seen : list seen1) (res last : result) : bool :=
   match seen, ca with
-  | [], [] => result_eqb res last
-  | o :: seen', a :: ca' =>
-      sound_class a q o &&
-      match o with
-      | Accepted s => is_nil seen' && result_eqb res (RSubject s)
+  | [], [] => res_cls_eqb res last
+  | s :: seen', a :: ca' =>
+      Nat.eqb (s_pos s) pos && sound1 q a s &&
+      match s_out s with
+      | Accepted sub => is_nil seen' && res_cls_eqb res (RSubject sub)
       | Failed e =>
-          if is_argument e || fallback_allowed a
-          then prop_chain q ca' seen' res (RError e)
-          else is_nil seen' && result_eqb res (RError e)
+          if is_argument e || s_fb s
+          then prop_chain q (S pos) ca' seen' res (RError e)
+          else is_nil seen' && res_cls_eqb res (RError e)
       end
   | _, _ => false
   end.
 
+Definition prop_step (ca : list authn) (s : step) : bool :=
+  prop_chain (st_req s) 0 ca (st_seen s) (st_res s) RNil && e2e_ok (st_res s) (st_e2e s).
+
+(* ------------------------------------------------------------------ correspondence with the model *)
+
+(** the model on the same request, with the cache lookups the driver saw; compared
+    are: number consulted, outcome classes (subjects included), flags, positions,
+    class of the answer, answer of the service *)
+Definition corr_step (ca : list authn) (s : step) : bool :=
+  let ch := to_chain (st_req s) ca (map s_hit (st_seen s)) in
+  let '(n, r) := execute ch in
+  Nat.eqb n (length (st_seen s)) &&
+  list_eqb cls_eqb (map (fun c => cls (c_out c)) (firstn n ch)) (map (fun o => cls (s_out o)) (st_seen s)) &&
+  list_eqb Bool.eqb (map c_fb (firstn n ch)) (map s_fb (st_seen s)) &&
+  list_eqb Nat.eqb (seq 0 n) (map s_pos (st_seen s)) &&
+  res_cls_eqb r (st_res s) && e2e_ok r (st_e2e s).
+
 Definition check (c : case) : verdict :=
-  let '(n, r) := authenticate (c_chain c) (c_req c) in
-  {| v_corr := Nat.eqb n (length (c_seen c)) &&
-               list_eqb outcome_eqb (firstn n (map (fun a => classify (a_type a) (c_req c)) (c_chain c))) (c_seen c) &&
-               result_eqb r (c_res c);
-     v_prop := prop_chain (c_req c) (c_chain c) (c_seen c) (c_res c) RNil;
+  {| v_corr := forallb (corr_step (c_chain c)) (c_steps c);
+     v_prop := forallb (prop_step (c_chain c)) (c_steps c);
      v_guards := [] |}.
 
 (* short constructors for the generated case files *)
-Definition au t fb := {| a_type := t; a_fb := fb |}.
+Definition au t pfb ov := {| a_type := t; a_proto_fb := pfb; a_over_fb := ov |}.
 Definition tk j i := {| t_jwt := j; t_intro := i |}.
-Definition rq a qu b c x := {| q_auth := a; q_query := qu; q_body := b; q_cookie := c; q_xsess := x |}.
-Definition cs ch q seen res := {| c_chain := ch; c_req := q; c_seen := seen; c_res := res |}.
+Definition rq a xt qu b c x sw :=
+  {| q_auth := a; q_xtok := xt; q_query := qu; q_body := b; q_cookie := c; q_xsess := x; q_sw := sw |}.
+Definition sn p fb h o := {| s_pos := p; s_fb := fb; s_hit := h; s_out := o |}.
+Definition stp q seen res e := {| st_req := q; st_seen := seen; st_res := res; st_e2e := e |}.
+Definition cs ch steps := {| c_chain := ch; c_steps := steps |}.
